@@ -14,9 +14,6 @@
 #ifndef EMAX
 #define EMAX 8
 #endif
-#ifndef STDLCM
-#define STDLCM 1 // also compare lcm with std::lcm in q_lcm_*
-#endif
 #ifndef PN
 #define PN 7 // elements in the array used by midpoint(T*, T*)
 #endif
@@ -243,9 +240,6 @@ Q q_ilog2()
 }
 
 // ---------------------------------------------------------------- mixed-type functions, second type U from FOR_U
-// Euclid on non-negative 64-bit values (reference for lcm only; gcd itself is checked against its definition)
-static u64 ref_gcd(u64 a, u64 b) { while (b != 0) { u64 t = a % b; a = b; b = t; } return a; }
-
 #define PAIR(NU, U, SU, WU)                                                                                            \
     Q q_cmp_##NU()                                                                                                     \
     {                                                                                                                  \
@@ -273,61 +267,98 @@ static u64 ref_gcd(u64 a, u64 b) { while (b != 0) { u64 t = a % b; a = b; b = t;
         if (TMAX > hi_of<U>) { if (a > hi_of<U>) vf_witness("saturates at max"); }                                     \
         if (TMIN < lo_of<U>) { if (a < lo_of<U>) vf_witness("saturates at min"); }                                     \
         vf_assert((i128)k_sat_cast_##NU(t) == clampi(a, lo_of<U>, hi_of<U>), "saturate_cast<U>(t) == clamp(t, min(U), max(U))"); \
-    }                                                                                                                  \
-    Q q_gcd_##NU()                                                                                                     \
-    {                                                                                                                  \
-        typedef ct_t<T, U> C; typedef std::make_unsigned_t<C> UC; T m = nd<T>(); U n = nd<U>(); C d = nd<C>();           \
-        i128 am = absi(m), an = absi(n);                                                                               \
-        vf_assume(am <= hi_of<C> && an <= hi_of<C>); /* std: |m| and |n| representable in the common type */           \
-        VF_KNOWN(C14_gcd_negative, m < 0 || n < 0);                                                                    \
-        VF_KNOWN(C14_gcd_mixed_narrowing, (i128)T(n) != (i128)n);                                                      \
-        C g = k_gcd_##NU(m, n);                                                                                        \
-        if (am == 0 && an == 0) { vf_witness("0,0"); vf_assert(g == 0, "gcd(0, 0) == 0"); }                            \
-        else {                                                                                                         \
-            if (an == 0) vf_witness("n == 0"); if (am == 0) vf_witness("m == 0");                                      \
-            vf_assert(g > 0, "gcd > 0");                                                                               \
-            if (g > 0) {                                                                                               \
-                vf_assert(UC(am) % UC(g) == 0 && UC(an) % UC(g) == 0, "gcd divides |m| and |n|");                       \
-                if (d > 0 && UC(am) % UC(d) == 0 && UC(an) % UC(d) == 0) { if (d == g && g > 1) vf_witness("nontrivial divisor"); vf_assert(d <= g, "every common divisor is <= gcd"); } \
-            }                                                                                                          \
-        }                                                                                                              \
-    }                                                                                                                  \
-    Q q_gcd_std_##NU()                                                                                                 \
-    {                                                                                                                  \
-        typedef ct_t<T, U> C; T m = nd<T>(); U n = nd<U>();                                                            \
-        vf_assume(absi(m) <= hi_of<C> && absi(n) <= hi_of<C>);                                                         \
-        VF_KNOWN(C14_gcd_negative, m < 0 || n < 0);                                                                    \
-        VF_KNOWN(C14_gcd_mixed_narrowing, (i128)T(n) != (i128)n);                                                      \
-        if (m > 1 && n > 1) vf_witness("both > 1");                                                                    \
-        vf_assert(k_gcd_##NU(m, n) == std::gcd(m, n), "gcd == std");                                                   \
-    }                                                                                                                  \
-    Q q_lcm_##NU()                                                                                                     \
-    {                                                                                                                  \
-        typedef ct_t<T, U> C; typedef decltype(T() * U()) P; T m = nd<T>(); U n = nd<U>();                             \
-        i128 am = absi(m), an = absi(n);                                                                               \
-        vf_assume(am <= hi_of<C> && an <= hi_of<C>);                                                                   \
-        u64 rg = ref_gcd(u64(am), u64(an)); i128 e = (am == 0 || an == 0) ? 0 : mulw<W + WU>(u64(am) / rg, an);             \
-        vf_assume(e <= hi_of<C>); /* std: the least common multiple is representable in the common type */             \
-        VF_KNOWN(C14_lcm_zero_zero, m == 0 && n == 0);                                                                 \
-        VF_KNOWN(C14_lcm_negative, m < 0 || n < 0);                                                                    \
-        VF_KNOWN(C14_gcd_negative, m < 0 || n < 0);                                                                    \
-        VF_KNOWN(C14_gcd_mixed_narrowing, (i128)T(n) != (i128)n);                                                      \
-        VF_KNOWN(C14_lcm_intermediate_overflow, mulw<W + WU>(m, n) > hi_of<P> || mulw<W + WU>(m, n) < lo_of<P>);     \
-        C l = k_lcm_##NU(m, n);                                                                                        \
-        if (am == 0 || an == 0) vf_witness("zero operand"); if (e == hi_of<C>) vf_witness("lcm == max");               \
-        vf_assert((i128)l == e, "lcm == |m| / gcd(|m|, |n|) * |n|");                                                   \
-        if (STDLCM) vf_assert(l == std::lcm(m, n), "lcm == std");                                                      \
     }
 FOR_U(PAIR)
 
-// gcd / lcm on the slices that need a bounded number of Euclid steps at every width: (x, x), (x, 0), (0, x), (x, 1), (1, x)
+// ---------------------------------------------------------------- gcd / lcm against their definitions, all pairs of values
+// Slices (they partition the domain): Q4 = 0..3: the top two bits of m equal Q4 (Q4 < 0: no slicing); HB >= 0 (cfg, thorough tier): the
+// high byte of m equals HB.
+#ifndef HB
+#define HB (-1)
+#endif
+template <int Q4> static void slice(T m)
+{
+    if constexpr (Q4 >= 0) vf_assume(int(bits(m) >> (W - 2)) == Q4);
+    if (HB >= 0) vf_assume(int(bits(m) >> (W - 8)) == HB);
+}
+// greatest common divisor: g >= 0; g == 0 iff m == n == 0; g divides |m| and |n|; every common divisor d (symbolic) is <= g
+template <typename U, ct_t<T, U> (*KF)(T, U), int Q4> static void gcd_case()
+{
+    typedef ct_t<T, U> C; typedef std::make_unsigned_t<C> UC; T m = nd<T>(); U n = nd<U>(); C d = nd<C>();
+    i128 am = absi(m), an = absi(n);
+    vf_assume(am <= hi_of<C> && an <= hi_of<C>); // std: |m| and |n| representable in the common type
+    slice<Q4>(m);
+    VF_KNOWN(C14_gcd_negative, m < 0 || n < 0);
+    VF_KNOWN(C14_gcd_mixed_narrowing, (i128)T(n) != (i128)n);
+    C g = KF(m, n);
+    if (am == 0 && an == 0) { if constexpr (Q4 < 0) vf_witness("0,0"); vf_assert(g == 0, "gcd(0, 0) == 0"); }
+    else {
+        if constexpr (Q4 < 0) { if (an == 0) vf_witness("n == 0"); if (am == 0) vf_witness("m == 0"); }
+        vf_assert(g > 0, "gcd > 0");
+        if (g > 0) {
+            vf_assert(UC(am) % UC(g) == 0 && UC(an) % UC(g) == 0, "gcd divides |m| and |n|");
+            if (d > 0 && UC(am) % UC(d) == 0 && UC(an) % UC(d) == 0) { if (d == g && g > 1) vf_witness("nontrivial divisor"); vf_assert(d <= g, "every common divisor is <= gcd"); }
+        }
+    }
+}
+template <typename U, ct_t<T, U> (*KF)(T, U), int Q4> static void gcd_std_case()
+{
+    typedef ct_t<T, U> C; T m = nd<T>(); U n = nd<U>();
+    vf_assume(absi(m) <= hi_of<C> && absi(n) <= hi_of<C>);
+    slice<Q4>(m);
+    VF_KNOWN(C14_gcd_negative, m < 0 || n < 0);
+    VF_KNOWN(C14_gcd_mixed_narrowing, (i128)T(n) != (i128)n);
+    if (n > 1) vf_witness("n > 1");
+    vf_assert(KF(m, n) == std::gcd(m, n), "gcd == std");
+}
+// least common multiple: 0 if an operand is 0; otherwise a positive common multiple of |m| and |n| that is <= every representable
+// common multiple c (symbolic). Assuming that such a c exists is exactly the std precondition "the lcm is representable".
+template <typename U, ct_t<T, U> (*KF)(T, U), int Q4, int WU, bool STD> static void lcm_case()
+{
+    typedef ct_t<T, U> C; typedef std::make_unsigned_t<C> UC; typedef decltype(T() * U()) P; T m = nd<T>(); U n = nd<U>(); C c = nd<C>();
+    i128 am = absi(m), an = absi(n);
+    vf_assume(am <= hi_of<C> && an <= hi_of<C>);
+    slice<Q4>(m);
+    if (am != 0 && an != 0) vf_assume(c > 0 && UC(c) % UC(am) == 0 && UC(c) % UC(an) == 0);
+    VF_KNOWN(C14_lcm_zero_zero, m == 0 && n == 0);
+    VF_KNOWN(C14_lcm_negative, m < 0 || n < 0);
+    VF_KNOWN(C14_gcd_negative, m < 0 || n < 0);
+    VF_KNOWN(C14_gcd_mixed_narrowing, (i128)T(n) != (i128)n);
+    VF_KNOWN(C14_lcm_intermediate_overflow, mulw<W + WU>(m, n) > hi_of<P> || mulw<W + WU>(m, n) < lo_of<P>);
+    C l = KF(m, n);
+    if constexpr (STD) { if (am > 1 && an > 1) vf_witness("both > 1"); vf_assert(l == std::lcm(m, n), "lcm == std"); }
+    else if (am == 0 || an == 0) { if constexpr (Q4 <= 0) vf_witness("zero operand"); vf_assert(l == 0, "lcm == 0 when an operand is 0"); }
+    else {
+        if (c == l && UC(l) > UC(am) && UC(l) > UC(an)) vf_witness("proper multiple");
+        vf_assert(l > 0 && UC(l) % UC(am) == 0 && UC(l) % UC(an) == 0, "lcm is a positive common multiple of |m| and |n|");
+        vf_assert(l <= c, "lcm <= every representable common multiple");
+    }
+}
+#define GCDLCM(NU, U, SU, WU)                                                                                          \
+    Q q_gcd_##NU() { gcd_case<U, k_gcd_##NU, -1>(); }                                                                  \
+    Q q_gcd_##NU##_q0() { gcd_case<U, k_gcd_##NU, 0>(); } Q q_gcd_##NU##_q1() { gcd_case<U, k_gcd_##NU, 1>(); }        \
+    Q q_gcd_##NU##_q2() { gcd_case<U, k_gcd_##NU, 2>(); } Q q_gcd_##NU##_q3() { gcd_case<U, k_gcd_##NU, 3>(); }        \
+    Q q_gcd_std_##NU() { gcd_std_case<U, k_gcd_##NU, -1>(); }                                                          \
+    Q q_lcm_##NU() { lcm_case<U, k_lcm_##NU, -1, WU, false>(); }                                                       \
+    Q q_lcm_##NU##_q0() { lcm_case<U, k_lcm_##NU, 0, WU, false>(); } Q q_lcm_##NU##_q1() { lcm_case<U, k_lcm_##NU, 1, WU, false>(); } \
+    Q q_lcm_##NU##_q2() { lcm_case<U, k_lcm_##NU, 2, WU, false>(); } Q q_lcm_##NU##_q3() { lcm_case<U, k_lcm_##NU, 3, WU, false>(); } \
+    Q q_lcm_std_##NU() { lcm_case<U, k_lcm_##NU, -1, WU, true>(); }
+FOR_U(GCDLCM)
+
+// gcd / lcm on the slices that need a bounded number of Euclid steps at every width: (x, x) and (x, 0), (0, x), (x, 1), (1, x)
 Q q_gcd_diag()
 {
     T x = nd<T>(); vf_assume(!(S && x == TMIN));
     VF_KNOWN(C14_gcd_negative, x < 0);
     if (x == TMAX) vf_witness("max"); if (x == 0) vf_witness("zero");
-    vf_assert((i128)SELF(k_gcd_)(x, x) == absi(x), "gcd(x, x) == |x|"); vf_assert((i128)SELF(k_gcd_)(x, 0) == absi(x), "gcd(x, 0) == |x|");
-    vf_assert((i128)SELF(k_gcd_)(0, x) == absi(x), "gcd(0, x) == |x|");
+    vf_assert((i128)SELF(k_gcd_)(x, x) == absi(x), "gcd(x, x) == |x|");
+}
+Q q_gcd_unit()
+{
+    T x = nd<T>(); vf_assume(!(S && x == TMIN));
+    VF_KNOWN(C14_gcd_negative, x < 0);
+    if (x == TMAX) vf_witness("max"); if (x == 0) vf_witness("zero");
+    vf_assert((i128)SELF(k_gcd_)(x, 0) == absi(x), "gcd(x, 0) == |x|"); vf_assert((i128)SELF(k_gcd_)(0, x) == absi(x), "gcd(0, x) == |x|");
     vf_assert(SELF(k_gcd_)(x, 1) == 1 && SELF(k_gcd_)(1, x) == 1, "gcd(x, 1) == gcd(1, x) == 1");
 }
 Q q_lcm_diag()
@@ -337,10 +368,42 @@ Q q_lcm_diag()
     VF_KNOWN(C14_lcm_negative, x < 0);
     VF_KNOWN(C14_gcd_negative, x < 0);
     VF_KNOWN(C14_lcm_intermediate_overflow, mulw<2 * W>(x, x) > hi_of<prod_t> || mulw<2 * W>(x, x) < lo_of<prod_t>);
-    if (x == TMAX) vf_witness("max");
+    if (x > 1) vf_witness("x > 1");
     vf_assert((i128)SELF(k_lcm_)(x, x) == absi(x), "lcm(x, x) == |x|");
+}
+Q q_lcm_unit()
+{
+    T x = nd<T>(); vf_assume(!(S && x == TMIN));
+    VF_KNOWN(C14_lcm_negative, x < 0);
+    VF_KNOWN(C14_gcd_negative, x < 0);
+    if (x == TMAX) vf_witness("max"); if (x == 0) vf_witness("zero");
     vf_assert((i128)SELF(k_lcm_)(x, 1) == absi(x) && (i128)SELF(k_lcm_)(1, x) == absi(x), "lcm(x, 1) == lcm(1, x) == |x|");
+}
+Q q_lcm_zero()
+{
+    T x = nd<T>(); vf_assume(!(S && x == TMIN));
+    VF_KNOWN(C14_lcm_zero_zero, x == 0);
+    VF_KNOWN(C14_lcm_negative, x < 0);
+    VF_KNOWN(C14_gcd_negative, x < 0);
+    if (x == TMAX) vf_witness("max");
     vf_assert(SELF(k_lcm_)(x, 0) == 0 && SELF(k_lcm_)(0, x) == 0, "lcm(x, 0) == lcm(0, x) == 0");
+}
+
+// powers of two at every width: gcd(2^a, 2^b) == 2^min(a, b), lcm(2^a, 2^b) == 2^max(a, b) (at most three Euclid steps)
+Q q_gcd_pow2()
+{
+    unsigned a = vf_nd_u8(), b = vf_nd_u8(); vf_assume(a < W - S && b < W - S);
+    T m = T(u64(1) << a), n = T(u64(1) << b);
+    if (a == W - S - 1 && b == 0) vf_witness("largest, smallest");
+    vf_assert(bits(SELF(k_gcd_)(m, n)) == (u64(1) << (a < b ? a : b)), "gcd(2^a, 2^b) == 2^min(a, b)");
+}
+Q q_lcm_pow2()
+{
+    unsigned a = vf_nd_u8(), b = vf_nd_u8(); vf_assume(a < W - S && b < W - S);
+    T m = T(u64(1) << a), n = T(u64(1) << b);
+    VF_KNOWN(C14_lcm_intermediate_overflow, mulw<2 * W>(m, n) > hi_of<prod_t>);
+    if (a + b == 8 * sizeof(prod_t) - std::is_signed_v<prod_t> - 1) vf_witness("largest product");
+    vf_assert(bits(SELF(k_lcm_)(m, n)) == (u64(1) << (a > b ? a : b)), "lcm(2^a, 2^b) == 2^max(a, b)");
 }
 
 // ---------------------------------------------------------------- host <-> network byte order (network = most significant byte first)
